@@ -1,7 +1,7 @@
 /-
   Lemmas/RtObjects.lean — hit-object lines of circles, spinners and holds under the codec laws:
   `get_sample_bank` against `read_custom_sample_banks`, the type bits, and the whole line against
-  `parse_hit_objects`. Sliders (path string, node samples) are not covered.
+  `parse_hit_objects`. Sliders (path string, node samples) are in Lemmas/Slider*.lean.
 -/
 import RosuModel.Lemmas.CodecLaws
 import RosuModel.Lemmas.ToyCodec
